@@ -152,3 +152,13 @@ package webrtc
 //@ props C10
 //@ nosafety
 //@ atcall fmtp.Parse assert (callarg0 == matchCodec.RTPCodecCapability.MimeType && callarg1 == matchCodec.RTPCodecCapability.ClockRate && callarg2 == matchCodec.RTPCodecCapability.Channels && callarg3 == matchCodec.RTPCodecCapability.SDPFmtpLine) || (callarg0 == leftCodec.RTPCodecCapability.MimeType && callarg1 == leftCodec.RTPCodecCapability.ClockRate && callarg2 == leftCodec.RTPCodecCapability.Channels && callarg3 == leftCodec.RTPCodecCapability.SDPFmtpLine)
+
+// C10, header-extension ids: an id allocated for a not-yet-negotiated extension comes from
+// the one-byte range 1..14 (15 is reserved, RFC 8285): the search runs over 1..14 and an id is
+// taken only from inside it.
+//@ func (*MediaEngine).getRTPParametersByKind #extids
+//@ props C10
+//@ nosafety
+//@ requires m != nil
+//@ loop 3 invariant 1 <= id && id <= 15
+//@ loop 3 break 1 <= id && id <= 14
